@@ -55,9 +55,13 @@ def parseWorldImpl? (s : String) : Option (List Nat × List Nat) :=
 structure DS where
   ns : NS
   readyImpl : List Nat := []
+  /-- sessions whose exit / failure the NodeServer's supervision handler has processed -/
+  closed : List Nat := []
   hsO : Ordering := .lt
   hsCs : List Conn := []
   hsW : List Link := []
+  /-- some end of a connection went away for a reason outside the election (`hfailA`/`hfailB`) -/
+  hsFailed : Bool := false
 
 def hsObs (w : List Link) : String :=
   let f (l : List Nat) := showNats (sortNats l)
@@ -78,9 +82,18 @@ def hsWinners (o : Ordering) (cs : List Conn) : List Conn :=
 
 /-- oracle on the implementation's observation: the winner is open on both nodes; at the end
 both nodes hold exactly the winner -/
-def hsJudge (o : Ordering) (cs : List Conn) (impl : String) (atEnd : Bool) : List String :=
+def hsJudge (o : Ordering) (cs : List Conn) (impl : String) (atEnd : Bool) (failed : Bool := false) : List String :=
   match betweenBr impl "OA", betweenBr impl "OB" with
   | some oa, some ob =>
+    -- with ends failing the winner may be gone (`C18.with_failures_never_two_links`): at rest both
+    -- nodes hold the same connections and at most one
+    if failed then
+      (if !atEnd then [] else
+        match oa, ob with
+        | [], [] => []
+        | [x], [y] => if cs.any (fun c => c.idA == x && c.idB == y) then [] else ["hs-two-links-or-different-links"]
+        | _, _ => ["hs-two-links-or-different-links"])
+    else
     let ws := hsWinners o cs
     (if ws.all (fun c => oa.contains c.idA && ob.contains c.idB) then [] else ["hs-winner-closed"]) ++
     (if !atEnd then [] else
@@ -101,20 +114,43 @@ def stepHs (ds : DS) (op impl : String) : Option (DS × StepOut) :=
   | ["hs", nameA, nameB, cs] =>
     match (splitOnChar cs ',').mapM parseConn? with
     | some cs =>
-      some ({ ds with hsO := nameOrd nameB nameA, hsCs := cs, hsW := hsInit cs }, { model := "ok" })
+      some ({ ds with hsO := nameOrd nameB nameA, hsCs := cs, hsW := hsInit cs, hsFailed := false }, { model := "ok" })
+    | none => some (ds, { model := "bad-op" })
+  | ["hdial", c] =>
+    -- a late dial (`FOp.dial`): a fresh link; the election winner is from now on the winner over
+    -- the larger set (`C18.late_dials_converge`)
+    match parseConn? c with
+    | some c =>
+      let w' := fStep ds.hsO ds.hsW (.dial c)
+      let cs' := ds.hsCs ++ [c]
+      let orc := hsJudge ds.hsO cs' impl false ds.hsFailed
+      some ({ ds with hsCs := cs', hsW := w' }, { model := hsObs w', oracle := orc, nontrivial := true })
+    | none => some (ds, { model := "bad-op" })
+  | ["hfailA", id] | ["hfailB", id] =>
+    match id.toNat? with
+    | some id =>
+      let isA := (words op).head? == some "hfailA"
+      let w' := fStep ds.hsO ds.hsW (if isA then .failA id else .failB id)
+      some ({ ds with hsW := w', hsFailed := true }, { model := hsObs w', oracle := hsJudge ds.hsO ds.hsCs impl false true, nontrivial := w' != ds.hsW })
     | none => some (ds, { model := "bad-op" })
   | ["hend"] =>
-    let orc := hsJudge ds.hsO ds.hsCs impl true
+    let orc := hsJudge ds.hsO ds.hsCs impl true ds.hsFailed
     let out : StepOut := { model := hsObs ds.hsW, oracle := orc, nontrivial := decide (ds.hsCs.length > 1) }
     some (ds, out)
   | [k, id] =>
     match id.toNat? with
     | some id =>
+      if k == "hpsA" || k == "hpsB" then
+        -- the pre-check through `check_session` (`stepPreSA` / `stepPreSB`)
+        let w' := if k == "hpsA" then stepPreSA ds.hsO ds.hsW id else stepPreSB ds.hsO ds.hsW id
+        let orc := hsJudge ds.hsO ds.hsCs impl false ds.hsFailed
+        some ({ ds with hsW := w' }, { model := hsObs w', oracle := orc, nontrivial := w' != ds.hsW })
+      else
       match hsOp? k id with
       | some hop =>
         let w' := hsStep ds.hsO ds.hsW hop
         let changed : Bool := w' != ds.hsW
-        let orc := hsJudge ds.hsO ds.hsCs impl false
+        let orc := hsJudge ds.hsO ds.hsCs impl false ds.hsFailed
         let out : StepOut := { model := hsObs w', oracle := orc, nontrivial := changed }
         some ({ ds with hsW := w' }, out)
       | none => none
@@ -159,29 +195,92 @@ def stepNS (st : NS) (op impl : String) : NS × StepOut :=
     let parseIdx (s : String) : Option (List Nat) :=
       if s == "-" then some [] else (splitOnChar s ',').mapM (fun x => (x.drop 1).toString.toNat?)
     let (orc, dirOk) := match impl.splitOn "|" with
-      | [ka, kb, ra, rb] =>
-        match parseIdx ka, parseIdx kb, parseIdx ra, parseIdx rb with
-        | some ka, some kb, some ra, some rb =>
-          (if e2eOk ds.length ka kb ra rb then [] else ["e2e-not-one-same-link"],
+      | [ka, kb, ra, rb, rawA, rawB] =>
+        match parseIdx ka, parseIdx kb, parseIdx ra, parseIdx rb, parseIdx rawA, parseIdx rawB with
+        | some ka, some kb, some ra, some rb, some rawA, some rawB =>
+          -- `ra`/`rb`: ready events of the sessions still listed, NOT de-duplicated (a session reported
+          -- twice fails `e2eOk`); `rawA`/`rawB`: every ready event in order: each session at most once,
+          -- only sessions of this world, and the kept one was reported
+          ((if e2eOk ds.length ka kb ra rb then [] else ["e2e-not-one-same-link"]) ++
+           (if rawA.eraseDups.length == rawA.length && rawB.eraseDups.length == rawB.length &&
+               (rawA ++ rawB).all (· < ds.length) then [] else ["ready-reported-twice"]),
            e2eDirectionAsModel (nameOrd nameB nameA) ds ka)
-        | _, _, _, _ => (["unparsable"], true)
+        | _, _, _, _, _, _ => (["unparsable"], true)
       | _ => (["unparsable"], true)
     (st, { model := if dirOk then impl else "model: survivor must be a dial of the node whose name sorts last",
            oracle := orc, nontrivial := decide (ds.length > 1) })
+  | ["e2r", _nameA, _nameB, d1, d2, _by] =>
+    -- session death, cleanup and re-election on reconnection (real handlers): k1 connections converge;
+    -- the link's session dies on one node => at rest nobody lists anything of it; k2 fresh dials
+    -- converge on one of the NEW connections; every closed session was reported disconnected once
+    let k1 := d1.length; let k2 := d2.length
+    let parseIdx (s : String) : Option (List Nat) :=
+      if s == "-" then some [] else (splitOnChar s ',').mapM (fun x => (x.drop 1).toString.toNat?)
+    let two (s : String) : Option (List Nat × List Nat) := match s.splitOn "|" with
+      | [x, y] => do pure (← parseIdx x, ← parseIdx y)
+      | _ => none
+    let orc := match words impl with
+      | [p1, p2, p3] =>
+        match two p1, two p2, p3.splitOn "|" with
+        | some (a1, b1), some (a2, b2), [ka, kb, ra, rb, da, db] =>
+          match parseIdx ka, parseIdx kb, parseIdx ra, parseIdx rb, parseIdx da, parseIdx db with
+          | some ka, some kb, some ra, some rb, some da, some db =>
+            (if e2eOk k1 a1 b1 a1 b1 then [] else ["e2e-not-one-same-link"]) ++
+            (if a2.isEmpty && b2.isEmpty then [] else ["e2e-dead-session-still-listed"]) ++
+            (if e2eOk (k1 + k2) ka kb ra rb && ka.all (· ≥ k1) then [] else ["e2e-no-re-election-after-reconnect"]) ++
+            (let expect := (List.range (k1 + k2)).filter (fun i => !ka.contains i)
+             if da == expect && db == expect then [] else ["e2e-disconnect-not-reported-once"])
+          | _, _, _, _, _, _ => ["unparsable"]
+        | _, _, _ => ["unparsable"]
+      | _ => ["unparsable"]
+    (st, { model := impl, oracle := orc, nontrivial := true })
+  | ["e2t", nameA, nameB, adv, c1] =>
+    -- the election's own deadline (`CheckSession`, 500 ms): c0 dialled by B is up and ready, A dials
+    -- c1, A's NodeServer is not scheduled while the clock advances by `adv` ms. Whatever `adv`: both
+    -- nodes must end with one and the same link — the one both full elections keep — and every
+    -- session is reported ready at most once.
+    let o := nameOrd nameB nameA
+    let c1ByA := c1 == "c1=a"
+    let cs : List Conn := [⟨false, 1, 0, 0⟩, ⟨c1ByA, 2, 1, 1⟩]
+    let w := (electA o cs).filter (fun i => (electB o cs).contains i)
+    let f (l : List Nat) := if l.isEmpty then "-" else ",".intercalate (l.map (fun i => s!"c{i}"))
+    let parseIdx (s : String) : Option (List Nat) :=
+      if s == "-" then some [] else (splitOnChar s ',').mapM (fun x => (x.drop 1).toString.toNat?)
+    let orc := match words impl with
+      | [_, after] =>
+        match after.splitOn "|" with
+        | [ka, kb, ra, rb] =>
+          match parseIdx ka, parseIdx kb, parseIdx ra, parseIdx rb with
+          | some ka, some kb, some ra, some rb =>
+            (if ka.isEmpty && kb.isEmpty then ["e2e-no-link-after-check-timeout"]
+             else if e2eOk 2 ka kb (ra.filter ka.contains) (rb.filter kb.contains) then [] else ["e2e-not-one-same-link"]) ++
+            (if ra.eraseDups.length == ra.length && rb.eraseDups.length == rb.length then [] else ["ready-reported-twice"])
+          | _, _, _, _ => ["unparsable"]
+        | _ => ["unparsable"]
+      | _ => ["unparsable"]
+    let _ := adv
+    -- c1 dialled by B: same direction as c0, the real nonces decide (and a pre-authentication
+    -- deadline miss on A closes c1 only): outcome judged by the oracle, not predicted
+    (st, { model := if c1ByA then s!"c0/c0 {f w}|{f w}|c0,c1|c0,c1" else impl, oracle := orc, nontrivial := true })
   | "ni" :: what :: _ =>
     -- paired non-interference experiment (theorems `unauthenticated_cannot_influence_*`):
     -- the implementation's answer with an unauthenticated name-spoofing session present
     -- must equal its answer without it.
     if what == "begin" then (st, { model := "ok" }) else
     let orc := match impl.splitOn " | " with
-      | [a, b] => if a == b then [] else ["unauthenticated-session-influenced-" ++ what]
+      | [a, b] =>
+        if a == b then []
+        -- `check_session` (theorem `unauthenticated_can_only_let_continue`): a spoofer sharing
+        -- (name, nonce) may turn the reply into `noOther`, never into one that stops the asker
+        else if what == "checks" && a == "noOther" then []
+        else ["unauthenticated-session-influenced-" ++ what]
       | _ => ["unparsable"]
     (st, { model := impl, oracle := orc, nontrivial := what == "commit" })
   | ["ns", this] => ({ thisName := this, sessions := [] }, { model := "ok" })
   | ["open", srv, pid] =>
     match parseBool? srv, pid.toNat? with
     | some srv, some pid =>
-      ({ st with sessions := st.sessions ++ [⟨pid, srv, none, none, false⟩] }, { model := "ok" })
+      (st.opened pid srv, { model := "ok" })
     | _, _ => (st, { model := "bad-op" })
   | ["register", pid, peer, nonce] =>
     match pid.toNat?, nonce.toNat? with
@@ -223,12 +322,37 @@ def stepNS (st : NS) (op impl : String) : NS × StepOut :=
         | _ => []
       (st, { model := m, oracle := orc, nontrivial := true })
     | none => (st, { model := "bad-op" })
-  | ["close", pid] =>
+  | ["close", pid] | ["closef", pid] =>
+    -- exit / failure of a session: the real supervision handler of the NodeServer
     match pid.toNat? with
-    | some pid => ({ st with sessions := st.sessions.filter (·.id != pid) }, { model := "ok" })
+    | some pid => (st.close pid, { model := if (st.find pid).isSome then "ok" else impl,
+                                   nontrivial := (st.find pid).isSome })
     | none => (st, { model := "bad-op" })
+  | ["residue"] =>
+    let (a, b, c) := st.residue
+    (st, { model := s!"ns={showNats (sortNats a)} ids={showNats (sortNats b)} auth={showNats (sortNats c)}" })
+  | ["fresh", pid, peer, nonce] =>
+    -- a (re)connecting session: register, check_candidate, commit_authenticated, is_elected and
+    -- its own CheckSession
+    match pid.toNat?, nonce.toNat? with
+    | some pid, some nonce =>
+      let alone := (st.sessionsOf peer).all (· == pid)
+      let (st1, r) := st.register pid peer nonce
+      let c := st1.checkCandidate pid
+      let (st2, commit) := match st1.commit pid with
+        | none => (st1, "none")
+        | some (st2, s, l) => (st2, s!"{s} {showNats (sortNats l)}")
+      let post := match st2.postAuthReply pid with
+        | some rep => s!"{st2.isElected pid} {showReply rep}"
+        | none => "false noOther"
+      -- oracle (theorem `reconnection_is_accepted_afresh`): no other session claims this peer,
+      -- so the session must be told there is no other connection, survive its own commit with
+      -- no losers, be elected and continue
+      let orc := if alone && r && impl != "true | noOther | true - | true noOther" then ["reconnection-not-accepted-afresh"] else []
+      (st2, { model := s!"{r} | {showReply c} | {commit} | {post}", oracle := orc, nontrivial := true })
+    | _, _ => (st, { model := "bad-op" })
   | ["visible"] =>
-    (st, { model := showNats (sortNats ((st.sessions.filter (·.auth)).map (·.id))) })
+    (st, { model := showNats (sortNats st.listed) })
   | _ => (st, { model := "bad-op" })
 
 def step (ds : DS) (op impl : String) : DS × StepOut :=
@@ -241,8 +365,19 @@ def step (ds : DS) (op impl : String) : DS × StepOut :=
     let ready := if impl == "true" then (pid.toNat?.map (· :: ds.readyImpl)).getD ds.readyImpl else ds.readyImpl
     let orc := if readyOk ns' ready then [] else ["two-ready-sessions-for-one-peer-on-acceptor"]
     ({ ns := ns', readyImpl := ready }, { out with oracle := out.oracle ++ orc })
-  | "visible" :: _ | "checkc" :: _ | "checks" :: _ | "elect" :: _ | "world" :: _ | "e2e" :: _ | "ni" :: _ | "postauth" :: _ => ({ ds with ns := ns' }, out)
-  | _ => ({ ns := ns', readyImpl := [] }, out)
+  | ["close", pid] | ["closef", pid] =>
+    ({ ds with ns := ns', readyImpl := [], closed := (pid.toNat?.map (· :: ds.closed)).getD ds.closed }, out)
+  | ["residue"] =>
+    -- on the implementation's own answer: nothing of a closed session is left in node_sessions,
+    -- connection_ids or authenticated_sessions
+    let fld := fun (k : String) => ((words impl).findSome? fun w =>
+      if w.startsWith (k ++ "=") then natList? (w.drop (k.length + 1)).toString else none).getD []
+    let orc := if residueOk ds.closed (fld "ns") (fld "ids") (fld "auth") then [] else ["closed-session-left-residue"]
+    ({ ds with ns := ns' }, { out with oracle := out.oracle ++ orc, nontrivial := !ds.closed.isEmpty })
+  | "fresh" :: _ => ({ ds with ns := ns' }, out)
+  | "visible" :: _ | "checkc" :: _ | "checks" :: _ | "elect" :: _ | "world" :: _ | "e2e" :: _ | "e2t" :: _ | "e2r" :: _ | "ni" :: _ | "postauth" :: _ => ({ ds with ns := ns' }, out)
+  | ["ns", _] => ({ ns := ns', readyImpl := [], closed := [] }, out)
+  | _ => ({ ds with ns := ns', readyImpl := [] }, out)
 
 def run (ops impl : Array String) : IO Tally :=
   replay ({ ns := { thisName := "", sessions := [] } } : DS) step ops impl
